@@ -1420,7 +1420,7 @@ func TestVerifC17(t *testing.T) {
 	// bases of the other formats (EMBL, GenBank, CSV, ecoPCR) and the record longer than a chunk
 	fmtBases := []string{"em400", "gb400", "cs200", "ec700"}
 	fmtCodecs := []string{"gz"}
-	longCodecs := []string{"zst"}
+	longCodecs := []string{"zst", "xz"}
 	multiBases := []string{"fa300"}
 	if thorough {
 		fmtCodecs = codecs
